@@ -1,77 +1,28 @@
-import DL.Lemmas.CFBasic
+import DL.Lemmas.CFInner
+import DL.Lemmas.CFUr2
 
 /-!
 # Soundness invariant of the control-flow analyzer on the fragment `inF`
 
-Fragment `inF`: expression/declaration statements whose expressions contain no nested function, class static block or
-`with` body; blocks; `if`/`else`; `while`, `do-while`, `for`, `for-in/of`; unlabelled `break`/`continue`; `return`;
-`throw`.  (Not yet: `switch`, `try`, labels, nested functions.)
+Fragment `inF` (`DL.Lemmas.CFPos`): expression/declaration statements, blocks, `if`/`else`, `while`, `do-while`, `for`,
+`for-in/of`, `switch`, `try`/`catch`/`finally`, labelled statements, `break`/`continue` (with or without label), `return`, `throw`; expressions may contain
+function scopes (parameters, then a body block of the fragment), to any depth.  
 
 For a statement visited with the analyzer state `a` at a program point that is reachable iff `live`:
 
 * `p1`  if the scope's end stops afterwards, the statement cannot complete normally (when live);
-* `p2`  if it can break (unlabelled), `found_break = Some(None)` afterwards;  `p2c` likewise for `continue`;
-* `p3`  every position flagged `unreachable` inside it is not reached;
-* `p4`  if the end recorded under its own position stops, it cannot complete normally;
-* `frame`  metadata outside its positions is untouched.
+* `p2`  if it can break (unlabelled), `found_break = Some(None)` afterwards;  `p2c` likewise for `continue`, `p2l` for
+  labelled `continue`s (a labelled `break` needs no invariant: only `labeled` turns it into a normal completion, and
+  a labelled statement never ends the enclosing scope);
+* `p3`  every statement position flagged `unreachable` inside it is not reached in the flow; `p3i` nor from the entry
+  of a function nested in it;
+* `p4`  if the end recorded under its own position stops, it cannot complete normally (not claimed for expression and
+  declaration statements, whose key may be shared with a function they start with);
+* `frame`  metadata outside its positions is untouched;
+* `pT`  if it can throw (when live), the scope's `may_throw` is set afterwards; `monoT` it is never reset
+  (the `try` statement resets it for its block and handler and restores it at its end).
 -/
 namespace DL.CF
-
-mutual
-def Kid.flat : Kid → Bool
-  | .expr _ ks => ks.flat
-  | _ => false
-def Kids.flat : Kids → Bool
-  | .nil => true
-  | .cons k r => k.flat && r.flat
-end
-
-mutual
-def Stmt.inF : Stmt → Bool
-  | .simple _ _ kids => kids.flat
-  | .block _ b => b.inF
-  | .ifS _ t c none => t.flat && c.inF
-  | .ifS _ t c (some a) => t.flat && c.inF && a.inF
-  | .whileS _ t _ b => t.flat && b.inF
-  | .doWhileS _ b t _ => t.flat && b.inF
-  | .forS _ i u t _ _ b => i.flat && u.flat && t.flat && b.inF
-  | .forInOf _ l r b => l.flat && r.flat && b.inF
-  | .brk _ none => true
-  | .cont _ none => true
-  | .ret _ a => a.flat
-  | .throw _ a => a.flat
-  | _ => false
-def Stmts.inF : Stmts → Bool
-  | .nil => true
-  | .cons s r => s.inF && r.inF
-end
-
-mutual
-def Stmt.positions : Stmt → List Nat
-  | .simple p _ _ => [p]
-  | .block p b => p :: b.positions
-  | .ifS p _ c none => p :: c.positions
-  | .ifS p _ c (some a) => p :: (c.positions ++ a.positions)
-  | .whileS p _ _ b => p :: b.positions
-  | .doWhileS p b _ _ => p :: b.positions
-  | .forS p _ _ _ _ _ b => p :: b.positions
-  | .forInOf p _ _ b => p :: b.positions
-  | .switchS p _ _ => [p]
-  | .tryS p .. => [p]
-  | .labeled p _ b => p :: b.positions
-  | .brk p _ => [p]
-  | .cont p _ => [p]
-  | .ret p _ => [p]
-  | .throw p _ => [p]
-def Stmts.positions : Stmts → List Nat
-  | .nil => []
-  | .cons s r => s.positions ++ r.positions
-end
-
-theorem Stmt.pos_mem (s : Stmt) : s.pos ∈ s.positions := by
-  cases s with
-  | ifS p t c a => cases a <;> simp [Stmt.pos, Stmt.positions]
-  | _ => simp [Stmt.pos, Stmt.positions]
 
 /-! ### flat expression lists only touch `hoist` and `may_throw` -/
 structure SameCtl (a b : A) : Prop where
@@ -88,61 +39,52 @@ theorem exprEffect_same (k : EKind) (a : A) : SameCtl a (exprEffect k a) := by
   unfold exprEffect
   rcases h : a.sc.end_ with _ | ⟨r, t, i⟩ | _ | _ <;> cases k <;> simp [h] <;> exact ⟨rfl, by simp [h], rfl, rfl⟩
 
-mutual
-theorem visitKid_flat : ∀ (k : Kid) (a : A), k.flat = true → SameCtl a (visitKid k a)
-  | .expr k ks, a, h => by
-    simp only [visitKid]
-    exact (visitKids_flat ks a (by simpa [Kid.flat] using h)).trans (exprEffect_same k _)
-  | .fnScope _ _, _, h => by simp [Kid.flat] at h
-  | .block _ _, _, h => by simp [Kid.flat] at h
-  | .stmt _, _, h => by simp [Kid.flat] at h
-theorem visitKids_flat : ∀ (ks : Kids) (a : A), ks.flat = true → SameCtl a (visitKids ks a)
-  | .nil, a, _ => by simp only [visitKids]; exact SameCtl.refl a
-  | .cons k r, a, h => by
-    simp only [Kids.flat, Bool.and_eq_true] at h
-    simp only [visitKids]
-    exact (visitKid_flat k a h.1).trans (visitKids_flat r _ h.2)
-end
-
-mutual
-theorem Kid.flowReach_flat : ∀ (k : Kid) (p : Nat), k.flat = true → k.flowReach p = false
-  | .expr _ ks, p, h => by simp only [Kid.flowReach]; exact Kids.flowReach_flat ks p (by simpa [Kid.flat] using h)
-  | .fnScope _ _, _, h => by simp [Kid.flat] at h
-  | .block _ _, _, h => by simp [Kid.flat] at h
-  | .stmt _, _, h => by simp [Kid.flat] at h
-theorem Kids.flowReach_flat : ∀ (ks : Kids) (p : Nat), ks.flat = true → ks.flowReach p = false
-  | .nil, _, _ => rfl
-  | .cons k r, p, h => by
-    simp only [Kids.flat, Bool.and_eq_true] at h
-    simp [Kids.flowReach, Kid.flowReach_flat k p h.1, Kids.flowReach_flat r p h.2]
-end
-
 /-! ### the invariant -/
-/-- `found_break` is `None` or `Some(None)` (no labelled breaks in the fragment) -/
-def FB (a : A) : Prop := a.sc.foundBreak = none ∨ a.sc.foundBreak = some none
-
 structure Pre (live : Bool) (ps : List Nat) (a : A) : Prop where
   hs : stopsEnd a.sc.end_ = true → live = false
   fresh : ∀ p ∈ ps, a.info.endAt p = none
   nodup : ps.Nodup
-  fb : FB a
 
-structure PostL (live : Bool) (ps : List Nat) (c : Compl) (reach : Nat → Bool) (a a' : A) : Prop where
+/-- precondition for visiting expressions -/
+structure PreK (ps : List Nat) (a : A) : Prop where
+  fresh : ∀ p ∈ ps, a.info.endAt p = none
+  nodup : ps.Nodup
+
+/-- what a visit records about the functions nested in it: every statement position flagged `unreachable` is not
+reached from a function entry (`inn`), whatever the liveness of the enclosing point -/
+structure PostI (us ps : List Nat) (inn : Nat → Bool) (a a' : A) : Prop where
+  p3 : ∀ q ∈ us, a'.info.ur q = true → inn q = false
+  frame : ∀ q, q ∉ ps → a'.info q = a.info q
+
+/-- visiting expressions: the scope's end and `found_break` are unchanged, `found_continue` only grows -/
+structure PostK (us ps : List Nat) (inn : Nat → Bool) (thr : Bool) (a a' : A) : Prop extends PostI us ps inn a a' where
+  end_ : a'.sc.end_ = a.sc.end_
+  fb : a'.sc.foundBreak = a.sc.foundBreak
+  fc : a.sc.foundContinue = true → a'.sc.foundContinue = true
+  mt : a.sc.mayThrow = true → a'.sc.mayThrow = true
+  /-- if the expressions can throw (`thr`) and the scope has not ended, `may_throw` is set -/
+  pT : stopsEnd a.sc.end_ = false → thr = true → a'.sc.mayThrow = true
+
+structure PostL (live : Bool) (us ps : List Nat) (c : Compl) (reach inn : Nat → Bool) (a a' : A) : Prop where
   p1 : stopsEnd a'.sc.end_ = true → (live && c.n) = false
   p2 : (live && c.b) = true → a'.sc.foundBreak = some none
   p2c : (live && c.c) = true → a'.sc.foundContinue = true
   monoB : a.sc.foundBreak = some none → a'.sc.foundBreak = some none
   monoC : a.sc.foundContinue = true → a'.sc.foundContinue = true
-  fb : FB a'
-  p3 : ∀ p ∈ ps, a'.info.ur p = true → (live && reach p) = false
+  p2l : (live && c.hasCl) = true → a'.sc.foundContinue = true
+  p3 : ∀ p ∈ us, a'.info.ur p = true → (live && reach p) = false
+  p3i : ∀ p ∈ us, a'.info.ur p = true → inn p = false
   frame : ∀ q, q ∉ ps → a'.info q = a.info q
+  monoT : a.sc.mayThrow = true → a'.sc.mayThrow = true
+  pT : (live && c.t) = true → a'.sc.mayThrow = true
 
-structure PostS (live : Bool) (s : Stmt) (a a' : A) : Prop
-    extends PostL live s.positions (s.compl []) s.reach a a' where
-  p4 : stopsEnd (a'.info.endAt s.pos) = true → (live && (s.compl []).n) = false
+/-- `ls` = the labels that immediately label the statement -/
+structure PostS (live : Bool) (ls : List Id) (s : Stmt) (a a' : A) : Prop
+    extends PostL live s.upos s.positions (s.compl ls) s.reach s.inner a a' where
+  p4 : s.isDeclOrExpr = false → stopsEnd (a'.info.endAt s.pos) = true → (live && (s.compl ls).n) = false
 
 theorem Pre.sub {live : Bool} {ps qs : List Nat} {a : A} (h : Pre live ps a) (hsub : ∀ p ∈ qs, p ∈ ps) (hn : qs.Nodup) :
-    Pre live qs a := ⟨h.hs, fun p hp => h.fresh p (hsub p hp), hn, h.fb⟩
+    Pre live qs a := ⟨h.hs, fun p hp => h.fresh p (hsub p hp), hn⟩
 
 theorem endAt_eq_of_info_eq {i j : Info} {q : Nat} (h : i q = j q) : i.endAt q = j.endAt q := by
   unfold Info.endAt; rw [h]
@@ -201,7 +143,7 @@ theorem flagA_ur_self (a : A) (p : Nat) (t : Tag) : (flagA a p t).info.ur p = un
 
 theorem Pre.flag {live : Bool} {ps qs : List Nat} {a : A} (h : Pre live ps a) (p : Nat) (t : Tag)
     (hsub : ∀ q ∈ qs, q ∈ ps) (hn : qs.Nodup) : Pre live qs (flagA a p t) :=
-  ⟨h.hs, fun q hq => by rw [flagA_endAt]; exact h.fresh q (hsub q hq), hn, h.fb⟩
+  ⟨h.hs, fun q hq => by rw [flagA_endAt]; exact h.fresh q (hsub q hq), hn⟩
 
 /-- facts shared by every case: what happened at the statement's own position `p` -/
 theorem own_pos_dead {live : Bool} {ps : List Nat} {a : A} (h : Pre live ps a) (p : Nat) (t : Tag) (i : Info)
@@ -209,114 +151,195 @@ theorem own_pos_dead {live : Bool} {ps : List Nat} {a : A} (h : Pre live ps a) (
   rw [hi, flagA_ur_self] at hu
   exact flag_sound h t hu
 
+theorem Pre.notStopped {live : Bool} {ps : List Nat} {a : A} (h : Pre live ps a) (hl : live = true) :
+    stopsEnd a.sc.end_ = false := by
+  cases hs : stopsEnd a.sc.end_ with
+  | false => rfl
+  | true => rw [h.hs hs] at hl; cases hl
+
+theorem PreK.of_pre {live : Bool} {ps qs : List Nat} {a : A} (h : Pre live ps a) (hsub : ∀ p ∈ qs, p ∈ ps) (hn : qs.Nodup) :
+    PreK qs a := ⟨fun p hp => h.fresh p (hsub p hp), hn⟩
+
+theorem PreK.flag {ps : List Nat} {a : A} (h : PreK ps a) (p : Nat) (t : Tag) : PreK ps (flagA a p t) :=
+  ⟨fun q hq => by rw [flagA_endAt]; exact h.fresh q hq, h.nodup⟩
+
 /-! ### leaf statements -/
-theorem simple_ok (live : Bool) (p : Nat) (t : Tag) (kids : Kids) (a : A) (hk : kids.flat = true)
-    (h : Pre live [p] a) : PostS live (.simple p t kids) a (visitStmt (.simple p t kids) a) := by
-  have hs := visitKids_flat kids (flagA a p t) hk
+theorem simple_ok (live : Bool) (ls : List Id) (p : Nat) (t : Tag) (kids : Kids) (a : A) (hk : kids.okF = true)
+    (h : Pre live (Stmt.simple p t kids).positions a)
+    (ihk : ∀ x, PreK kids.positions x → PostK kids.upos kids.positions kids.inner kids.mayThrow x (visitKids kids x)) :
+    PostS live ls (.simple p t kids) a (visitStmt (.simple p t kids) a) := by
   have hv : visitStmt (.simple p t kids) a = visitKids kids (flagA a p t) := by simp [visitStmt, flagA]
+  have hsep := Stmt.simple_own_sep p t kids h.nodup
+  have hur : (visitKids kids (flagA a p t)).info.ur p = (flagA a p t).info.ur p := Kids.ur_frame kids _ p hsep.1
+  have hprek : PreK kids.positions (flagA a p t) :=
+    (PreK.of_pre h (fun q hq => (Stmt.mem_positions_simple p t kids q).mpr (Or.inr hq)) (Stmt.nodup_simple p t kids h.nodup)).flag p t
+  have hs := ihk _ hprek
   rw [hv]
-  refine ⟨⟨?_, ?_, ?_, ?_, ?_, ?_, ?_, ?_⟩, ?_⟩
+  generalize visitKids kids (flagA a p t) = a1 at hs hur
+  refine ⟨⟨?_, ?_, ?_, ?_, ?_, ?_, ?_, ?_, ?_, ?_, ?_⟩, ?_⟩
   · intro hst; rw [hs.end_] at hst; simp [h.hs hst]
   · simp [Stmt.compl]
   · simp [Stmt.compl]
   · intro hb; rw [hs.fb]; exact hb
-  · intro hc; rw [hs.fc]; exact hc
-  · unfold FB; rw [hs.fb]; exact h.fb
+  · exact hs.fc
+  · simp [Stmt.compl]
   · intro q hq hu
-    simp only [Stmt.positions, List.mem_singleton] at hq; subst hq
-    have := own_pos_dead h q t _ (by rw [hs.info]) hu
-    simp [this]
+    simp only [Stmt.upos, List.mem_cons] at hq
+    rcases hq with rfl | hq
+    · have := own_pos_dead h q t _ hur hu
+      simp [this]
+    · have hne : q ≠ p := fun e => hsep.1 (e ▸ hq)
+      simp [Stmt.reach, hne, Kids.flowReach_okF kids q hk]
+  · intro q hq hu
+    simp only [Stmt.upos, List.mem_cons] at hq
+    simp only [Stmt.inner]
+    rcases hq with rfl | hq
+    · exact hsep.2
+    · exact hs.p3 q hq hu
   · intro q hq
-    simp only [Stmt.positions, List.mem_singleton] at hq
-    rw [hs.info]; exact flagA_other a p t q hq
-  · intro hst
-    rw [endAt_eq_of_info_eq (congrFun hs.info _), Stmt.pos, flagA_endAt, h.fresh p (by simp)] at hst
+    rw [Stmt.mem_positions_simple, not_or] at hq
+    rw [hs.frame q hq.2]; exact flagA_other a p t q hq.1
+  · exact hs.mt
+  · intro hh
+    simp only [Stmt.compl, evalCompl_t, Bool.and_eq_true] at hh
+    exact hs.pT (h.notStopped hh.1) hh.2
+  · intro hde hst
+    rw [Stmt.isDeclOrExpr_simple] at hde
+    have hpos := Stmt.positions_simple_nde p t kids hde
+    have hnd := h.nodup; rw [hpos] at hnd
+    have hp : p ∉ kids.positions := (List.nodup_cons.mp hnd).1
+    rw [Stmt.pos, endAt_eq_of_info_eq (hs.frame p hp), flagA_endAt, h.fresh p (by rw [hpos]; simp)] at hst
     simp at hst
 
-theorem brk_ok (live : Bool) (p : Nat) (a : A) (h : Pre live [p] a) :
-    PostS live (.brk p none) a (visitStmt (.brk p none) a) := by
-  have hv : visitStmt (.brk p none) a = { sc := { a.sc with foundBreak := some none }, info := (flagA a p .other).info } := by
+theorem brk_ok (live : Bool) (ls : List Id) (l : Option Id) (p : Nat) (a : A) (h : Pre live [p] a) :
+    PostS live ls (.brk p l) a (visitStmt (.brk p l) a) := by
+  have hv : visitStmt (.brk p l) a =
+      { sc := { a.sc with foundBreak := if (l.isSome && a.sc.foundBreak == some none) = true then a.sc.foundBreak else some l },
+        info := (flagA a p .other).info } := by
     simp [visitStmt, flagA]
   rw [hv]
-  refine ⟨⟨?_, ?_, ?_, ?_, ?_, ?_, ?_, ?_⟩, ?_⟩
-  · intro _; simp [Stmt.compl]
-  · intro _; rfl
-  · simp [Stmt.compl]
-  · intro _; rfl
+  refine ⟨⟨?_, ?_, ?_, ?_, ?_, ?_, ?_, ?_, ?_, ?_, ?_⟩, ?_⟩
+  · intro _; cases l <;> simp [Stmt.compl]
+  · cases l <;> simp [Stmt.compl]
+  · cases l <;> simp [Stmt.compl]
+  · intro hb; simp only [hb]; cases l <;> simp
   · intro hc; exact hc
-  · exact Or.inr rfl
+  · cases l <;> simp [Stmt.compl, Compl.hasCl]
   · intro q hq hu
-    simp only [Stmt.positions, List.mem_singleton] at hq; subst hq
+    simp only [Stmt.upos, List.mem_singleton] at hq; subst hq
     have := own_pos_dead h q .other _ rfl hu
     simp [this]
+  · intro q _ _; rfl
   · intro q hq
     simp only [Stmt.positions, List.mem_singleton] at hq
     exact flagA_other a p .other q hq
-  · intro _; simp [Stmt.compl]
+  · exact id
+  · cases l <;> simp [Stmt.compl]
+  · intro _ _; cases l <;> simp [Stmt.compl]
 
-theorem cont_ok (live : Bool) (p : Nat) (a : A) (h : Pre live [p] a) :
-    PostS live (.cont p none) a (visitStmt (.cont p none) a) := by
-  have hv : visitStmt (.cont p none) a = { sc := { a.sc with foundContinue := true }, info := (flagA a p .other).info } := by
+theorem cont_ok (live : Bool) (ls : List Id) (l : Option Id) (p : Nat) (a : A) (h : Pre live [p] a) :
+    PostS live ls (.cont p l) a (visitStmt (.cont p l) a) := by
+  have hv : visitStmt (.cont p l) a = { sc := { a.sc with foundContinue := true }, info := (flagA a p .other).info } := by
     simp [visitStmt, flagA]
   rw [hv]
-  refine ⟨⟨?_, ?_, ?_, ?_, ?_, ?_, ?_, ?_⟩, ?_⟩
-  · intro _; simp [Stmt.compl]
-  · simp [Stmt.compl]
+  refine ⟨⟨?_, ?_, ?_, ?_, ?_, ?_, ?_, ?_, ?_, ?_, ?_⟩, ?_⟩
+  · intro _; cases l <;> simp [Stmt.compl]
+  · cases l <;> simp [Stmt.compl]
   · intro _; rfl
   · intro hb; exact hb
   · intro _; rfl
-  · exact h.fb
+  · intro _; rfl
   · intro q hq hu
-    simp only [Stmt.positions, List.mem_singleton] at hq; subst hq
+    simp only [Stmt.upos, List.mem_singleton] at hq; subst hq
     have := own_pos_dead h q .other _ rfl hu
     simp [this]
+  · intro q _ _; rfl
   · intro q hq
     simp only [Stmt.positions, List.mem_singleton] at hq
     exact flagA_other a p .other q hq
-  · intro _; simp [Stmt.compl]
+  · exact id
+  · cases l <;> simp [Stmt.compl]
+  · intro _ _; cases l <;> simp [Stmt.compl]
 
 /-- `return` / `throw`: visit the argument, then `mark_as_end` with a forced end -/
-theorem forcedLeaf_ok (live : Bool) (s : Stmt) (p : Nat) (a a1 : A) (e : End)
-    (hpos : s.positions = [p]) (hp : s.pos = p) (hn : (s.compl []).n = false) (hb : (s.compl []).b = false)
-    (hc : (s.compl []).c = false) (hr : ∀ q, s.reach q = (q == p))
-    (hs : SameCtl (flagA a p .other) a1) (h : Pre live [p] a) :
-    PostS live s a (markAsEnd p e a1) := by
-  refine ⟨⟨?_, ?_, ?_, ?_, ?_, ?_, ?_, ?_⟩, ?_⟩
+theorem forcedLeaf_ok (live : Bool) (ls : List Id) (s : Stmt) (p : Nat) (arg : Kids) (a a1 a2 : A) (e : End)
+    (hpos : s.positions = p :: arg.positions) (hup : s.upos = p :: arg.upos) (hp : s.pos = p)
+    (hn : (s.compl ls).n = false) (hb : (s.compl ls).b = false)
+    (hc : (s.compl ls).c = false) (hl : (s.compl ls).hasCl = false) (hr : ∀ q, s.reach q = (q == p)) (hin : ∀ q, s.inner q = arg.inner q)
+    (hk : PostK arg.upos arg.positions arg.inner arg.mayThrow (flagA a p .other) a1)
+    (hs : SameCtl a1 a2) (hmt : a1.sc.mayThrow = true → a2.sc.mayThrow = true)
+    (hpt : (live && (s.compl ls).t) = true → a2.sc.mayThrow = true) (h : Pre live (p :: arg.positions) a) :
+    PostS live ls s a (markAsEnd p e a2) := by
+  have hnd := List.nodup_cons.mp h.nodup
+  refine ⟨⟨?_, ?_, ?_, ?_, ?_, ?_, ?_, ?_, ?_, ?_, ?_⟩, ?_⟩
   · intro _; simp [hn]
   · simp [hb]
   · simp [hc]
-  · intro h'; rw [markAsEnd_foundBreak, hs.fb]; exact h'
-  · intro h'; rw [markAsEnd_foundContinue, hs.fc]; exact h'
-  · unfold FB; rw [markAsEnd_foundBreak, hs.fb]; exact h.fb
+  · intro h'; rw [markAsEnd_foundBreak, hs.fb, hk.fb]; exact h'
+  · intro h'; rw [markAsEnd_foundContinue, hs.fc]; exact hk.fc h'
+  · simp [hl]
   · intro q hq hu
-    rw [hpos] at hq; simp only [List.mem_singleton] at hq; subst hq
-    rw [markAsEnd_ur] at hu
-    have := own_pos_dead h q .other _ (by rw [hs.info]) hu
-    simp [this]
+    rw [hup] at hq
+    rw [markAsEnd_ur, hs.info] at hu
+    rcases List.mem_cons.mp hq with rfl | hq
+    · rw [ur_eq_of_info_eq (hk.frame q hnd.1)] at hu
+      have := own_pos_dead h q .other _ rfl hu
+      simp [this]
+    · have hne : q ≠ p := fun e => hnd.1 (e ▸ Kids.upos_sub arg q hq)
+      simp [hr, hne]
+  · intro q hq hu
+    rw [hup] at hq
+    rw [markAsEnd_ur, hs.info] at hu
+    rw [hin]
+    rcases List.mem_cons.mp hq with rfl | hq
+    · exact Kids.inner_false arg q hnd.1
+    · exact hk.p3 q hq hu
   · intro q hq
-    rw [hpos] at hq; simp only [List.mem_singleton] at hq
-    rw [markAsEnd_info_other _ _ _ _ hq, hs.info]; exact flagA_other a p .other q hq
-  · intro _; simp [hn]
+    rw [hpos] at hq; simp only [List.mem_cons, not_or] at hq
+    rw [markAsEnd_info_other _ _ _ _ hq.1, hs.info, hk.frame q hq.2]; exact flagA_other a p .other q hq.1
+  · intro hh; rw [markAsEnd_mayThrow]; exact hmt (hk.mt hh)
+  · intro hh; rw [markAsEnd_mayThrow]; exact hpt hh
+  · intro _ _; simp [hn]
 
-theorem ret_ok (live : Bool) (p : Nat) (arg : Kids) (a : A) (hk : arg.flat = true) (h : Pre live [p] a) :
-    PostS live (.ret p arg) a (visitStmt (.ret p arg) a) := by
+theorem ret_ok (live : Bool) (ls : List Id) (p : Nat) (arg : Kids) (a : A) (h : Pre live (p :: arg.positions) a)
+    (ihk : ∀ x, PreK arg.positions x → PostK arg.upos arg.positions arg.inner arg.mayThrow x (visitKids arg x)) :
+    PostS live ls (.ret p arg) a (visitStmt (.ret p arg) a) := by
   have hv : visitStmt (.ret p arg) a = markAsEnd p forcedRet (visitKids arg (flagA a p .other)) := by
     simp [visitStmt, flagA]
   rw [hv]
-  exact forcedLeaf_ok live _ p a _ _ rfl rfl (by simp [Stmt.compl]) (by simp [Stmt.compl]) (by simp [Stmt.compl])
-    (fun q => rfl) (visitKids_flat arg _ hk) h
+  have hnd := List.nodup_cons.mp h.nodup
+  have hk := ihk _ ((PreK.of_pre h (fun q hq => List.mem_cons_of_mem _ hq) hnd.2).flag p .other)
+  refine forcedLeaf_ok live ls _ p arg a _ _ _ rfl rfl rfl (by simp [Stmt.compl]) (by simp [Stmt.compl]) (by simp [Stmt.compl])
+    (by simp only [Stmt.compl, seq_hasCl, evalCompl_hasCl]; rfl)
+    (fun q => rfl) (fun q => rfl) hk (SameCtl.refl _) id ?_ h
+  intro hh
+  simp only [Stmt.compl, seq_t, evalCompl_t, evalCompl_n, Bool.true_and, Bool.or_false, Bool.and_eq_true] at hh
+  exact hk.pT (h.notStopped hh.1) hh.2
 
 theorem throwEffect_same (a : A) : SameCtl a (throwEffect a) := by
   unfold throwEffect
   rcases h : a.sc.end_ with _ | ⟨r, t, i⟩ | _ | _ <;> simp only [h] <;>
     first | exact SameCtl.refl a | exact ⟨rfl, by simp [h], rfl, rfl⟩
 
-theorem throw_ok (live : Bool) (p : Nat) (arg : Kids) (a : A) (hk : arg.flat = true) (h : Pre live [p] a) :
-    PostS live (.throw p arg) a (visitStmt (.throw p arg) a) := by
+theorem throwEffect_mt (a : A) : (a.sc.mayThrow = true → (throwEffect a).sc.mayThrow = true) ∧
+    (stopsEnd a.sc.end_ = false → (throwEffect a).sc.mayThrow = true) := by
+  unfold throwEffect
+  rcases h : a.sc.end_ with _ | ⟨r, t, i⟩ | _ | _ <;> simp [h]
+
+theorem throw_ok (live : Bool) (ls : List Id) (p : Nat) (arg : Kids) (a : A) (h : Pre live (p :: arg.positions) a)
+    (ihk : ∀ x, PreK arg.positions x → PostK arg.upos arg.positions arg.inner arg.mayThrow x (visitKids arg x)) :
+    PostS live ls (.throw p arg) a (visitStmt (.throw p arg) a) := by
   have hv : visitStmt (.throw p arg) a = markAsEnd p forcedThrow (throwEffect (visitKids arg (flagA a p .other))) := by
     simp [visitStmt, flagA]
   rw [hv]
-  exact forcedLeaf_ok live _ p a _ _ rfl rfl (by simp [Stmt.compl]) (by simp [Stmt.compl]) (by simp [Stmt.compl])
-    (fun q => rfl) ((visitKids_flat arg _ hk).trans (throwEffect_same _)) h
+  have hnd := List.nodup_cons.mp h.nodup
+  have hk := ihk _ ((PreK.of_pre h (fun q hq => List.mem_cons_of_mem _ hq) hnd.2).flag p .other)
+  refine forcedLeaf_ok live ls _ p arg a _ _ _ rfl rfl rfl (by simp [Stmt.compl]) (by simp [Stmt.compl]) (by simp [Stmt.compl])
+    (by simp only [Stmt.compl, seq_hasCl, evalCompl_hasCl]; rfl)
+    (fun q => rfl) (fun q => rfl) hk (throwEffect_same _) (throwEffect_mt _).1 ?_ h
+  intro hh
+  simp only [Bool.and_eq_true] at hh
+  apply (throwEffect_mt _).2
+  rw [hk.end_]; exact h.notStopped hh.1
 
 end DL.CF
